@@ -318,3 +318,55 @@ func VerifCoalescingConcurrentAdds() {
 	<-runDone
 	zzverif.Cover("coalescing_concurrent_adds_done")
 }
+
+// A consumer that reads late: one or two Adds are made while nobody reads the signal channel, the clock passes the end
+// of the window (so every decision point - timer expiry, cap check - is reached with the first signal still
+// undelivered), and only then does the consumer read everything that is offered: it receives at least one signal
+// (no Add is lost) and never more signals than there were Adds.
+//
+//verif:harness prop=C09 name=coalescing_late_consumer threads=8 sched=delay preempt=2 t_preempt=3 unwind=12 witness=lenient
+func VerifCoalescingLateConsumer() {
+	start := zzverif.TimeFromNanos(1_000_000_000)
+	clk := zzverifstubs.NewClock(start)
+	ini, max := vInitial, vMax
+	rl, err := NewCoalescing(OptionsCoalescing{InitialDelay: &ini, MaxDelay: &max})
+	zzverif.Assert(err == nil, "valid_options_accepted")
+	c := rl.(*coalescing)
+	c.clock = clk
+	ch := make(chan struct{})
+	runDone := make(chan struct{})
+	go func() {
+		c.Run(context.Background(), ch)
+		close(runDone)
+	}()
+	adds := 1
+	c.Add()
+	zzverif.WaitQuiescent()
+	if zzverif.Bool("second_add_inside_window") {
+		c.Add()
+		adds++
+		zzverif.WaitQuiescent()
+	}
+	// well past the end of every window, in two steps
+	clk.Advance(2 * vInitial)
+	zzverif.WaitQuiescent()
+	clk.Advance(4 * vInitial)
+	zzverif.WaitQuiescent()
+	// the consumer wakes up and takes whatever is offered, for as long as something is offered
+	got := 0
+	for i := 0; i < 4; i++ {
+		select {
+		case <-ch:
+			got++
+		default:
+		}
+		zzverif.WaitQuiescent()
+		clk.Advance(4 * vInitial)
+		zzverif.WaitQuiescent()
+	}
+	zzverif.Assert(got >= 1, "no_add_lost")
+	zzverif.Assert(got <= adds, "signals_never_exceed_adds")
+	c.Close()
+	<-runDone
+	zzverif.Cover("coalescing_late_consumer_done")
+}
